@@ -1,16 +1,26 @@
 // native replay for C08.dlpoly.box/*/roundtrip: real DLPOLYTrajectoryWriter and DLPOLYTrajectoryReader (factories of libvotca_csg), CONFIG format,
-// one bead in a triclinic box.  usage: a.out <scratch file ending in .dlpc>; exit 1 if the box read back differs from the box written.
+// one bead in a triclinic box.  usage: a.out <scratch file ending in .dlpc> [box|atoms]; exit 1 if the box (mode atoms: position, velocity, force of the bead) read back differs from what was written.
 #include <votca/csg/topology.h>
 #include <votca/csg/trajectoryreader.h>
 #include <votca/csg/trajectorywriter.h>
 #include <iostream>
+#include <string>
 using namespace votca::csg;
+static bool with_vf = false;
 static void fill(Topology &t) {
   t.CreateResidue("RES");
   t.RegisterBeadType("A");
-  t.CreateBead(Bead::spherical, "A", "A", 0, 1.0, 0.0)->setPos(Eigen::Vector3d(0.5, 0.25, 0.125));
+  Bead *b = t.CreateBead(Bead::spherical, "A", "A", 0, 1.0, 0.0);
+  b->setPos(Eigen::Vector3d(0.5, 0.25, 0.125));
+  if (with_vf) {
+    b->setVel(Eigen::Vector3d(1.5, -0.75, 0.375));
+    b->setF(Eigen::Vector3d(125.0, -62.5, 31.25));
+    t.SetHasVel(true);
+    t.SetHasForce(true);
+  }
 }
-int main(int, char **argv) {
+int main(int argc, char **argv) {
+  with_vf = argc > 2 && std::string(argv[2]) == "atoms";
   TrajectoryWriter::RegisterPlugins();
   TrajectoryReader::RegisterPlugins();
   Topology top;
@@ -33,5 +43,12 @@ int main(int, char **argv) {
   std::cout << "box written\n" << box << "\nbox read back\n" << in.getBox() << "\n";
   bool same = (in.getBox() - box).cwiseAbs().maxCoeff() < 1e-8;
   std::cout << (same ? "ok\n" : "FAIL: the box read back is not the box written\n");
+  if (with_vf) {
+    Bead *a = top.getBead(0), *b = in.getBead(0);
+    bool okp = (a->getPos() - b->getPos()).norm() < 1e-8, okv = b->HasVel() && (a->getVel() - b->getVel()).norm() < 1e-8, okf = b->HasF() && (a->getF() - b->getF()).norm() < 1e-6;
+    std::cout << "position " << (okp ? "ok" : "DIFFERS") << ", velocity " << (okv ? "ok" : "DIFFERS") << ", force " << (okf ? "ok" : "DIFFERS") << "\n";
+    if (!okf && b->HasF()) std::cout << "force written " << a->getF().transpose() << " read " << b->getF().transpose() << "\n";
+    return (okp && okv && okf) ? 0 : 1;
+  }
   return same ? 0 : 1;
 }
